@@ -2,11 +2,11 @@
 from ..ir import AnalysisBroken, strip_targs, qmatch
 from ..graph import Graph
 from ..expr import access_path, path_str, held_locks, reaching_defs, norm_cond, origins, leaves, defs_in_node
-from .common import strip_casts, short, comparison, expr_equal, once_init, loops_over, loop_visits_every_element
+from .common import strip_casts, short, comparison, expr_equal, once_init, loops_over, loop_visits_every_element, subtree_through_locals
 
 UNITS = ['sdk/src/trace/span.cc']
 DRIVERS = ['trace_headers.cc']
-CANARIES = ['c04_canary.cc']
+CANARIES = ['c04_canary.cc', 'c19_canary.cc']
 
 EXPLANATION = (
     'C04.R1 (lock-field association + dominance): in every member of sdk::trace::Span outside constructor/destructor, '
@@ -732,10 +732,46 @@ def rule_r9(ck, prog, rule='C04.R9'):
         raise AnalysisBroken('fewer than 2 timestamp constructions from a clock reading found (%d)' % cnt)
 
 
+def rule_r10(ck, prog, rule='C04.R10', cls='sdk::trace::SpanData'):
+    """events and links are kept in call order: AddEvent / AddLink store the new element at the end of their member sequence
+    (push_back / emplace_back, or insert at end()) - an insertion at a computed position re-orders what the application recorded"""
+    rec = prog.record(cls)
+    cnt = 0
+    for name in ('AddEvent', 'AddLink'):
+        for f in sorted([x for x in prog.funcs.values() if x.cls == rec['qn'] and x.name == name and x.blocks], key=lambda x: x.key):
+            stores = [n for n in f.nodes if n['k'] == 'call' and n.get('obj') is not None and access_path(f, n['obj'])[:1] == ('this',) and len(access_path(f, n['obj'])) == 2 and
+                      strip_targs(n.get('c', '')).rsplit('::', 1)[-1] in ('push_back', 'emplace_back', 'insert', 'emplace', 'push_front', 'emplace_front')]
+            cnt += 1
+            if not stores:
+                ck.inconclusive(rule, f, 'appended-in-call-order:%s' % name, None, 'the store into the member sequence was not recognised')
+                continue
+            bad = None
+            for n in stores:
+                m = strip_targs(n['c']).rsplit('::', 1)[-1]
+                if m in ('push_back', 'emplace_back'):
+                    continue
+                if m in ('insert', 'emplace') and n.get('args'):
+                    pos = f.nodes[n['args'][0]]
+                    sub = [f.nodes[i] for i in subtree_through_locals(f, n['args'][0])]
+                    ends = [x for x in sub if x['k'] == 'call' and strip_targs(x.get('c', '')).rsplit('::', 1)[-1] in ('end', 'cend') and x.get('obj') is not None and access_path(f, x['obj']) == access_path(f, n['obj'])]
+                    others = [x for x in sub if x['k'] == 'call' and x not in ends and strip_targs(x.get('c', '')).rsplit('::', 1)[-1] not in ('end', 'cend')]
+                    if ends and not others:
+                        continue
+                bad = (n, m)
+                break
+            ck.verdict(bad is None, rule, f, 'appended-in-call-order:%s' % name, bad[0] if bad else stores[0],
+                       'the new element is appended' if bad is None else
+                       'SpanData::%s stores the new element with %s at a computed position: events / links are exported in another order than the application recorded them' % (name, bad[1]))
+    if cnt < 2:
+        raise AnalysisBroken('C04.R10: SpanData::AddEvent / AddLink not found')
+
+
 def run(ck, prog):
     ck.doc('C04.R8', 'attribute / link copy callbacks handed to ForEachKeyValue never ask to stop', 3)
     ck.doc('C04.R9', 'clock agreement: SteadyTimestamp from steady_clock, SystemTimestamp from system_clock', 2)
     ck.doc('C08.R7', '(shared rule, see C08) no member of AttributeMap stores with a non-overwriting call (event / link attribute lists are last-write-wins)', 1)
+    ck.doc('C04.R10', 'events and links are appended in call order (SpanData::AddEvent / AddLink)', 2)
+    ck.doc('C19.R1', '(shared rule, see C19) no string_view::data() into a call without the view\'s length in the attribute conversion and the trace SDK', 0)
     ck.doc('C04.R1', 'Span mutators: recordable only touched under the span mutex; dereferences behind the non-null edge', 16)
     ck.doc('C04.R2', 'Span::End typestate: ended flag, single OnEnd with the moved recordable, recordable reset afterwards', 6)
     ck.doc('C04.R3', 'every virtual of sdk::trace::Recordable is overridden by every concrete recordable', 2)
@@ -769,4 +805,10 @@ def run(ck, prog):
     rule_r9(ck, prog)
     from . import c08
     c08.rule_r7_bulk(ck, prog, classes=('sdk::common::AttributeMap',))
+    rule_r10(ck, prog)
+    # attribute values are copied with their length (see C19.R1): string_view::data() into a NUL-terminated API truncates at an embedded NUL
+    from . import c19
+    with ck.canary('C19.R1'):
+        c19.rule_r1(ck, prog, only='canary::c19::', observe_others=False)
+    c19.rule_r1(ck, prog, path_filters=('/sdk/include/opentelemetry/sdk/common/attribute_utils.h', '/sdk/src/trace/', '/sdk/include/opentelemetry/sdk/trace/'), observe_others=False)
     return {}
